@@ -145,6 +145,52 @@ def check(case: dict):
     return {"nt": nt, "labels": labels}
 
 
+def check_history(case: dict):
+    """several configurations loaded one after the other in one process; every loaded copy is edited in place afterwards (its
+    generator arguments, endpoint options, recorded filters). A later round trip must not see what was done to an earlier copy."""
+    from maze_dataset import MazeDatasetConfig
+
+    labels = []
+    for k, step in enumerate(case["steps"]):
+        spec = step["spec"]
+        c = L.make_cfg(spec)
+        h0 = c.stable_hash_cfg()
+        data = json.loads(json.dumps(call("C18:history:serialize", c.serialize)))
+        c2 = call("C18:history:load", MazeDatasetConfig.load, data)
+        hist = f"step {k} of {len(case['steps'])}; earlier loaded copies were edited with {[s_['edit'] for s_ in case['steps'][:k]]}"
+        require(c2.maze_ctor_kwargs == dict(spec.get("kwargs", {})), "C18:history:kwargs", f"loaded generator arguments {c2.maze_ctor_kwargs}, stored {spec.get('kwargs', {})}; {hist}")
+        require(c2.endpoint_kwargs == c.endpoint_kwargs, "C18:history:endpoint-kwargs", f"loaded {c2.endpoint_kwargs}, stored {c.endpoint_kwargs}; {hist}")
+        require(c2.applied_filters == c.applied_filters, "C18:history:filters", f"loaded {c2.applied_filters}, stored {c.applied_filters}; {hist}")
+        require(c2 == c and c2.stable_hash_cfg() == h0 == L.make_cfg(spec).stable_hash_cfg(), "C18:history:not-equal", f"loaded config differs from the one stored: {_safe_diff(c, c2)}; {hist}")
+        for e in step["edit"]:
+            if e == "kwargs":
+                c2.maze_ctor_kwargs["do_forks"] = False
+                c2.maze_ctor_kwargs["p"] = 0.77
+            elif e == "endpoint":
+                c2.endpoint_kwargs["deadend_start"] = True
+                c2.endpoint_kwargs["allowed_end"] = [(0, 0)]
+            elif e == "filters":
+                c2.applied_filters.append({"name": "path_length", "args": (5,), "kwargs": {}})
+            labels.append(f"edit:{e}")
+    empties = sum(1 for st_ in case["steps"] if not st_["spec"].get("kwargs"))
+    return {"nt": len(case["steps"]) >= 2 and empties >= 2, "labels": labels}
+
+
+@st.composite
+def _history(draw):
+    steps = []
+    for _ in range(draw(st.integers(2, 5))):
+        spec = draw(G.dataset_spec(n_lo=2, n_hi=6, mazes_lo=0, mazes_hi=200, satisfiable_bias=False))
+        # empty containers are where a shared default would live
+        for key in ("kwargs", "endpoint", "filters"):
+            if draw(st.booleans()):
+                spec.pop(key, None)
+                if key == "kwargs":
+                    spec["kwargs"] = {}
+        steps.append({"spec": spec, "edit": draw(st.lists(st.sampled_from(["kwargs", "endpoint", "filters"]), unique=True, max_size=3))})
+    return {"steps": steps}
+
+
 def _safe_diff(a, b):
     try:
         return a.diff(b)
@@ -252,5 +298,6 @@ def subs(tier: str):
         Sub("round-trip", check, "hypothesis", strategy=lambda: _case(False), examples=40 if q else 2000),
         Sub("one-field-variants", check, "hypothesis", strategy=lambda: _case(True), examples=60 if q else 3000),
         Sub("collections", check_collection, "hypothesis", strategy=_collection, examples=10 if q else 500),
+        Sub("load-histories", check_history, "hypothesis", strategy=_history, examples=25 if q else 1000),
         Sub("cross-process", _replay_cross, "custom", run=_cross_process(60 if q else 300, ["0", "1", "4242"] if q else ["0", "1", "4242", "random", "99"])),
     ]
